@@ -70,6 +70,26 @@ TRUSTED = [
     "outside this subset is a TranslationError (broken obligation).  Cross-checked: the generated definitions are proved "
     "EQUAL to the hand transcription (rfl + decide), and the hand transcription is what entry thub runs against /repo; the "
     "translator is run on edited source texts on every check (extra check translator-selftest)",
+    "translator, scalar part (same file -> same Gen file): erb.gm90 / erb.mg83 (decorators must be strategy / "
+    "@elementwise(<first parameter>, 0) / format_docstring; body = `if Hz is None: if a < b: raise ValueError(...); Hz = <number>` "
+    "followed by `name = expr` lines and `return expr`) and gammatone_erb_constants(n) (`name = expr` lines and a returned pair) "
+    "become generic [TrigField] Lean definitions proved equal, as functions, to erbGm90 / erbMg83 / erbCall / "
+    "gammatoneErbConstants (src_erb_*_is_model, src_gammatone_erb_constants_is_model).  It trusts a TYPED reading of Python "
+    "arithmetic: expressions built from the int parameter n, non-negative int literals, + - * **, factorial stay ints = Lean "
+    "Nat (`-` is truncated subtraction: agrees with Python only where Python's value is >= 0, i.e. n >= 1 - for n = 0 "
+    "the implementation raises and the model is not claimed); an int meeting a float or `/` is converted (literal k -> ofInt k, "
+    "expression e -> ofNat e); a float literal is the shortest decimal p/q that reads back as it (ofRat p q; 1. -> ofInt 1, "
+    ".5 -> half); int ** -int -> 1 / ofNat (a ^ e); x ** y -> pow; pi -> pi; `<` -> LtTest.lt, raise ValueError -> "
+    "Except.error; Hz=None -> Option; the default of a StrategyDict is the strategy registered first (also extra check "
+    "default:erb on the imported module)",
+    "translator, gammatone.sampled (same file): the body must be `assert eta >= 1`, then `name = expr` lines and the two "
+    "`f /= abs(f.freq_response(x))`, then `return CascadeFilter([f0] + [fn] * (<count>))`.  Vocabulary trusted: a sum / difference "
+    "of scalars and `scalar * z ** -k` terms = the dense coefficient list (k-th entry, `- t` -> `-(t)`); "
+    "`(num / den).diff(n=e, mul_after=-z)` followed by `ZFilter(filt.numpoly) / den` = mk (diffNum num den e) den, where diffNum / "
+    "diffStep is the HAND model of the loop of ZFilter.diff in lazy_filters.py (not translated); `number / den` = mk [number] den; "
+    "`f /= abs(f.freq_response(x))` = normalise f x (hand model of freq_response: Horner evaluation at exp(-jx)); "
+    "`[a] + [b] * k` = a :: List.replicate k b; defaults phase=<int>, eta=<int> of the def line -> gammatone_sampled_call "
+    "(theorems src_gammatone_sampled_is_model, src_gammatone_sampled_call_is_model)",
     "hand-written generic Lean transcription ALV/Model/C13.lean of the design strategies (modelled, not verified: "
     "ZFilter/Poly operator plumbing that turns the design expression into coefficients, thub/Stream broadcasting)",
     "Float evaluation of the model (Lean runtime, C libm) vs CPython floats: the model copies the code's operation order, so the "
@@ -155,12 +175,18 @@ MANIFEST = {"text": "Lean 4 theorems (104, no sorry/axiom, no PENDING statement)
                     "REGENERATED from the source text on every run (translator harness/props/c13_tr.py -> ALV/Gen/C13Src.lean) and proved "
                     "equal to the transcribed programs (src_*_is_model, src_progOf_is_model), so the machine theorem, the wellformedness "
                     "and - instant by instant - the scalar design formulas are theorems about the regenerated bodies "
-                    "(src_reads_are_constant_designs, src_instants_are_the_design_formulas, src_programs_wellformed); tied to /repo by a "
+                    "(src_reads_are_constant_designs, src_instants_are_the_design_formulas, src_programs_wellformed); erb.gm90 / erb.mg83 (formula, "
+                    "Hz=None refusal below 7, unit 1, strategy table and default) and gammatone_erb_constants are regenerated too and the "
+                    "closed forms are restated about the regenerated text (src_erb_closed_forms, src_erb_call, "
+                    "src_gammatone_erb_constants_closed_form); gammatone.sampled (body and defaults) is regenerated and theorem 7k restated about it "
+                    "(src_gammatone_sampled_all_sections; ZFilter.diff's loop stays the hand model diffNum); tied to /repo by a "
                     "differential correspondence (Float twin in the code's operation order, coefficients within 4 ulp - measured "
                     "bit-exact) run on every check over call shapes, numeric spellings, units and boundary cut-offs",
             "technique": "Lean 4 proof over R of generic [TrigField] design definitions + TRANSLATOR (harness/props/c13_tr.py: the 16 "
                          "thub-based strategy bodies of lazy_filters.py / lazy_auditory.py -> ALV/Gen/C13Src.lean on every run, proved equal "
-                         "to the model's stream programs) + Float twin tied to the implementation "
+                         "to the model's stream programs; erb.gm90 / erb.mg83 with the Hz=None branch and gammatone_erb_constants -> "
+                         "generic scalar definitions proved equal to the model's functions; gammatone.sampled -> coefficient lists / diffNum / "
+                         "normalise / cascade, proved equal to gammatoneSampled) + Float twin tied to the implementation "
                          "+ histories of designs sharing parameter objects (Lean state machine = state-free spec, proved) "
                          "+ long-delay / long-run time-domain runs against the difference equations"}
 
@@ -1322,7 +1348,7 @@ def _translator_checks(eng):
     # the default parameter values the call model (ALV/Model/C13Call.lean: combCall, alpha = 1, tau = inf) copies,
     # read from the `def` lines by the translator
     _, infos = c13_tr.translate(texts)
-    got = {i["strategy"]: dict(zip(i["params"], i["defaults"])) for i in infos}
+    got = {i["strategy"]: dict(zip(i["params"], i["defaults"])) for i in infos if "strategy" in i}
     want = {"comb.fb": {"delay": None, "alpha": "1"}, "comb.tau": {"delay": None, "tau": "inf"},
             "comb.ff": {"delay": None, "alpha": "1"}}
     bad = {k: got.get(k) for k in want if got.get(k) != want[k]}
@@ -1364,6 +1390,7 @@ def extra_checks(eng):
         yield ("strategies:" + name, got == keys, "strategy names %r, expected %r" % (sorted(got), sorted(keys)))
     yield ("default:lowpass", al.lowpass.default is al.lowpass.pole, "lowpass.default is not lowpass.pole")
     yield ("default:highpass", al.highpass.default is al.highpass.z, "highpass.default is not highpass.z")
+    yield ("default:erb", al.erb.default is al.erb.gm90, "erb.default is not erb.gm90 (the strategy registered first)")
     yield ("alias:comb", al.comb.alpha is al.comb.fb and al.comb.fb_tau is al.comb.tau and al.comb.ff_alpha is al.comb.ff,
            "comb aliases do not name the same strategies")
 
